@@ -441,9 +441,9 @@ def parse_phys(out):
     res = {}
     for l in out.split("\n"):
         t = l.split()
-        if len(t) < 2 or t[0] not in "MIEODAGZ":
+        if len(t) < 2 or t[0] not in ("M", "I", "E", "O", "D", "A", "G", "g", "K", "B", "Z"):
             continue
-        r = res.setdefault(t[1], {"I": {}, "O": {}, "D": {}, "A": {}, "G": {}, "done": False})
+        r = res.setdefault(t[1], {"I": {}, "O": {}, "D": {}, "A": {}, "G": {}, "g": {}, "K": {}, "done": False})
         if t[0] == "M":
             r["status"] = t[2]
             r["msg"] = " ".join(t[3:])
@@ -458,8 +458,12 @@ def parse_phys(out):
             r["D"][(int(t[2]), int(t[3]))] = pv.hexf(t[4])
         elif t[0] == "A":
             r["A"][(int(t[2]), int(t[3]))] = complex(pv.hexf(t[4]), pv.hexf(t[5]))
-        elif t[0] == "G":
-            r["G"][(int(t[2]), int(t[3]), int(t[4]))] = complex(pv.hexf(t[5]), pv.hexf(t[6]))
+        elif t[0] in "Gg":
+            r[t[0]][(int(t[2]), int(t[3]), int(t[4]))] = complex(pv.hexf(t[5]), pv.hexf(t[6]))
+        elif t[0] == "K":
+            r["K"][(int(t[2]), int(t[3]))] = int(t[4])
+        elif t[0] == "B":
+            r["beta"] = pv.hexf(t[2])
         elif t[0] == "Z":
             r["done"] = True
     return res
@@ -501,10 +505,21 @@ def compare_phys(base, var, relabel):
     for (i, j), v in base["A"].items():
         if not close(v, var["A"][(pi[i], pi[j])]):
             return "<c+_%d c_%d>: %r vs <c+_%d c_%d>': %r" % (i, j, v, pi[i], pi[j], var["A"][(pi[i], pi[j])])
+    # G without dropped terms: must agree to rounding
+    for (i, j, n), v in base["g"].items():
+        w = var["g"][(pi[i], pi[j], n)]
+        if not close(v, w):
+            return "G_%d,%d(n=%d) [no Lehmann term dropped]: %r vs G'_%d,%d: %r" % (i, j, n, v, pi[i], pi[j], w)
+    # G as the library computes it: each copy may have dropped up to K terms (and K merged sums) of magnitude <= 1e-8,
+    # each at distance >= |w_n| from the frequency -- the documented truncation, which depends on the eigenbasis chosen
+    # inside degenerate levels and therefore on the order of the basis states
+    import math
     for (i, j, n), v in base["G"].items():
         w = var["G"][(pi[i], pi[j], n)]
-        if not close(v, w):
-            return "G_%d,%d(n=%d): %r vs G'_%d,%d: %r" % (i, j, n, v, pi[i], pi[j], w)
+        wn = math.pi * abs(2 * n + 1) / base["beta"]
+        allow = 2e-8 * (base["K"][(i, j)] + var["K"][(pi[i], pi[j])]) / wn
+        if abs(v - w) > TOL + TOL * max(abs(v), abs(w)) + allow:
+            return "G_%d,%d(n=%d): %r vs G'_%d,%d: %r (allowance for dropped terms %.2g)" % (i, j, n, v, pi[i], pi[j], w, allow)
     return None
 
 
